@@ -25,6 +25,14 @@ type FrontScript struct {
 	Cfg    ScriptCfg `json:"cfg"`
 	Method string    `json:"method"`
 	Authz  string    `json:"authz"` // class name, see frontRequest
+	// Prior: requests the same client made before this one; every cookie the gateway set in their
+	// responses is sent along with the later requests (a client that keeps cookies)
+	Prior []FrontStep `json:"prior,omitempty"`
+}
+
+type FrontStep struct {
+	Method string `json:"method"`
+	Authz  string `json:"authz"`
 }
 
 // hconn is a persistent HTTP/1.1 client connection.
@@ -141,6 +149,45 @@ func getChallenge(rep *hreply, scheme string) string {
 // RunFront performs the scenario and records status, challenges and whether
 // the tunnel handler was reached (hook gw.enter), and as whom.
 func (i *Inst) RunFront(s *FrontScript, tw *TraceWriter, rng *rand.Rand) error {
+	jar := map[string]string{}
+	prior := []string{}
+	for k, st := range s.Prior {
+		ps := &FrontScript{ID: fmt.Sprintf("%s.p%d", s.ID, k), Cfg: s.Cfg, Method: st.Method, Authz: st.Authz}
+		if err := i.runFrontStep(ps, tw, rng, jar, append([]string{}, prior...)); err != nil {
+			return err
+		}
+		prior = append(prior, st.Method+":"+st.Authz)
+	}
+	return i.runFrontStep(s, tw, rng, jar, prior)
+}
+
+func (i *Inst) runFrontStep(s *FrontScript, tw *TraceWriter, rng *rand.Rand, jar map[string]string, prior []string) error {
+	cookieHdr := func() [][2]string {
+		if len(jar) == 0 {
+			return nil
+		}
+		names := []string{}
+		for n := range jar {
+			names = append(names, n)
+		}
+		sort.Strings(names)
+		parts := []string{}
+		for _, n := range names {
+			parts = append(parts, n+"="+jar[n])
+		}
+		return [][2]string{{"Cookie", strings.Join(parts, "; ")}}
+	}
+	keep := func(r *hreply) {
+		if r == nil {
+			return
+		}
+		for _, v := range r.hdr.Values("Set-Cookie") {
+			nv := strings.SplitN(strings.SplitN(v, ";", 2)[0], "=", 2)
+			if len(nv) == 2 {
+				jar[strings.TrimSpace(nv[0])] = nv[1]
+			}
+		}
+	}
 	cid := i.R.NextCid("h")
 	host := i.P.Addr
 	mechs := append([]string{}, i.Cfg.Auths...)
@@ -148,7 +195,7 @@ func (i *Inst) RunFront(s *FrontScript, tw *TraceWriter, rng *rand.Rand) error {
 	faults0 := len(i.P.Faults())
 	mark := i.P.Mark()
 	upgrade := s.Method == "RDG_OUT_DATA"
-	ev := M{"ev": "http", "script": s.ID, "cls": strings.Join(mechs, "+"), "mechs": mechs, "method": s.Method, "authz": s.Authz,
+	ev := M{"ev": "http", "script": s.ID, "cls": strings.Join(mechs, "+"), "mechs": mechs, "method": s.Method, "authz": s.Authz, "prior": append([]string{}, prior...), "cookies": len(jar),
 		"scheme": "other", "wellFormed": false, "confirmed": false, "free": false, "wantUser": ""}
 	var final *hreply
 	var ferr error
@@ -159,7 +206,8 @@ func (i *Inst) RunFront(s *FrontScript, tw *TraceWriter, rng *rand.Rand) error {
 			return
 		}
 		defer c.c.Close()
-		final, ferr = c.do(s.Method, host, cid, hdrs, upgrade)
+		final, ferr = c.do(s.Method, host, cid, append(hdrs, cookieHdr()...), upgrade)
+		keep(final)
 	}
 	az := func(v string) [2]string { return [2]string{"Authorization", v} }
 	b64 := func(x string) string { return base64.StdEncoding.EncodeToString([]byte(x)) }
@@ -171,11 +219,12 @@ func (i *Inst) RunFront(s *FrontScript, tw *TraceWriter, rng *rand.Rand) error {
 		}
 		defer c.c.Close()
 		_, neg := ntlmNegotiate()
-		r1, err := c.do(s.Method, host, cid, [][2]string{az(scheme + " " + neg)}, false)
+		r1, err := c.do(s.Method, host, cid, append([][2]string{az(scheme + " " + neg)}, cookieHdr()...), false)
 		if err != nil {
 			ferr = err
 			return
 		}
+		keep(r1)
 		ch := getChallenge(r1, scheme)
 		if ch == "" {
 			final = r1 // no challenge: the scheme is not served
@@ -193,10 +242,12 @@ func (i *Inst) RunFront(s *FrontScript, tw *TraceWriter, rng *rand.Rand) error {
 				return
 			}
 			defer c2.c.Close()
-			final, ferr = c2.do(s.Method, host, cid, [][2]string{az(scheme + " " + am)}, upgrade)
+			final, ferr = c2.do(s.Method, host, cid, append([][2]string{az(scheme + " " + am)}, cookieHdr()...), upgrade)
+			keep(final)
 			return
 		}
-		final, ferr = c.do(s.Method, host, cid, [][2]string{az(scheme + " " + am)}, upgrade)
+		final, ferr = c.do(s.Method, host, cid, append([][2]string{az(scheme + " " + am)}, cookieHdr()...), upgrade)
+		keep(final)
 	}
 	set := func(scheme string, wf, conf bool, want string) {
 		ev["scheme"], ev["wellFormed"], ev["confirmed"], ev["wantUser"] = scheme, wf, conf, want
@@ -235,6 +286,9 @@ func (i *Inst) RunFront(s *FrontScript, tw *TraceWriter, rng *rand.Rand) error {
 	case "basic-right":
 		set("basic", true, true, "7")
 		one(az("Basic " + b64("7:pw-7")))
+	case "basic-right-8":
+		set("basic", true, true, "8")
+		one(az("Basic " + b64("8:pw-8")))
 	case "basic-right-colonpw":
 		set("basic", true, false, "8") // password with a colon: whole rest is the password, which is wrong
 		one(az("Basic " + b64("8:pw-8:extra")))
